@@ -39,6 +39,9 @@ CHECK_PROFILES = {
 VA_ARG_ARTEFACT = re.compile(r"\*\(\([^)]*\*\)\s*\*?\(?\s*(argptr|ap|\w*va_args?\w*|&?va_arg\w*)")
 
 
+NATIVE_HOOK_UNITS = {"LIBSNDFILE_VERIF_MAX_HEADER": ["common"]}
+
+
 def _load_measured():
     try:
         return json.load(open(os.path.join(VERIF, "registry", "measured_tiers.json")))
@@ -524,6 +527,10 @@ def native_replay(ctx, h, values, outdir, extra_defines=(), expect_desc=None):
     srcs = [os.path.join(VERIF, "harness", h.src), os.path.join(VERIF, "env", "replay_rt.c")]
     for e in h.include_env:
         srcs.append(os.path.join(VERIF, "env", e + ".c"))
+    # hooks that change the behaviour of a LINKED unit: that unit is recompiled with the hook for the replay (it precedes the archive)
+    for hook, units in NATIVE_HOOK_UNITS.items():
+        if hook in h.defines:
+            srcs += [os.path.join(SRC, u + ".c") for u in units if u in h.link]
     # harness definitions (included units, stubs) come first and win over the archive's
     cmd = cc + base + incs + defs + srcs + ["-Wl,--allow-multiple-definition"] + objs + ["-lm", "-o", exe]
     rc, out, err, *_ = sh(cmd, timeout=900)
@@ -662,7 +669,9 @@ def run_one(ctx, h, known_keys, replay_root):
             for p in failed[:4]:
                 entry = {"property": p["property"], "description": p.get("description", ""),
                          "location": _loc(p)}
-                cmdt = cbmc_cmd(h, gb, trace=True, prop=p["property"])
+                # (unwinding assertions get their ids during symbolic execution: --property does not know them, so the
+                # trace is taken from an all-properties run)
+                cmdt = cbmc_cmd(h, gb, trace=True, prop=None if is_unwind(p) else p["property"])
                 rc3, out3, err3, w3, _, to3 = sh(cmdt, timeout=h.timeout, mem_gb=MEM_LIMIT_GB)
                 r.queries += 1
                 vals = []
